@@ -713,6 +713,56 @@ def _guards(fi, target):
     return rec(fi.node.body, [])
 
 
+def _none_fact(test, branch, expr):
+    """what a guard (test taken on `branch`) says about `expr`: 'none' | 'notnone' | None"""
+    if isinstance(test, ast.UnaryOp) and isinstance(test.op, ast.Not):
+        return _none_fact(test.operand, not branch, expr)
+    if isinstance(test, ast.Compare) and len(test.ops) == 1 and norm(test.left) == expr \
+            and isinstance(test.comparators[0], ast.Constant) and test.comparators[0].value is None:
+        if isinstance(test.ops[0], (ast.Is, ast.Eq)):
+            return 'none' if branch else 'notnone'
+        if isinstance(test.ops[0], (ast.IsNot, ast.NotEq)):
+            return 'notnone' if branch else 'none'
+    if norm(test) == expr:
+        return 'notnone' if branch else None      # truthiness: falsy does not mean None
+    if isinstance(test, ast.BoolOp) and isinstance(test.op, ast.And) and branch:
+        for v in test.values:
+            f = _none_fact(v, True, expr)
+            if f:
+                return f
+    return None
+
+
+def _known_none(fi, target, expr):
+    """'none' / 'notnone' if the enclosing guards of `target`, or an earlier `if <expr> is None: return|raise`
+    in an enclosing block, decide whether `expr` is None at `target`; else None"""
+    for t, b in _guards(fi, target):
+        f = _none_fact(t, b, expr)
+        if f:
+            return f
+
+    def rec(body):
+        fact = None
+        for st in body:
+            if st is target or any(n is target for n in ast.walk(st)):
+                if fact:
+                    return fact
+                for attr in ('body', 'orelse', 'finalbody'):
+                    sub = getattr(st, attr, None)
+                    if isinstance(sub, list) and any(n is target for b_ in sub if isinstance(b_, ast.AST) for n in ast.walk(b_)):
+                        return rec(sub)
+                return None
+            if isinstance(st, ast.If) and st.body and isinstance(st.body[-1], (ast.Return, ast.Raise)) and not st.orelse:
+                f = _none_fact(st.test, False, expr)
+                if f:
+                    fact = f
+            elif any(isinstance(n, (ast.Assign, ast.AugAssign)) and any(norm(t_) == expr for t_ in (n.targets if isinstance(n, ast.Assign) else [n.target]))
+                     for n in ast.walk(st)):
+                fact = None
+        return None
+    return rec(fi.node.body)
+
+
 def _eval_guard(test, facts):
     """three-valued evaluation of `X is None` / `X is not None` under facts {name: 'none'|'notnone'}"""
     if isinstance(test, ast.Compare) and len(test.ops) == 1 and isinstance(test.left, ast.Name) \
@@ -989,8 +1039,9 @@ def rule_global(ctx):
     if len(idst) == 1 and len(app) == 1:
         g1 = [(norm(t), b) for t, b in _guards(cr, idst[0])]
         g2 = [(norm(t), b) for t, b in _guards(cr, app[0])]
-        want = ('cls.cgraph is not None', True)
-        if want in g1 and want in g2 and idst[0].lineno < app[0].lineno and 'get_ID' in norm(idst[0].value):
+        cg = '%s.cgraph' % (cr.params[0] if cr.params else 'cls')
+        if _known_none(cr, idst[0], cg) == 'notnone' and _known_none(cr, app[0], cg) == 'notnone' \
+                and idst[0].lineno < app[0].lineno and 'get_ID' in norm(idst[0].value):
             r.ok(construct='create-guard', nontrivial=True,
                  sample='Function.create: `%s` then `%s`, both under `cls.cgraph is not None`' % (norm(idst[0]), norm(app[0])))
         else:
@@ -1007,9 +1058,14 @@ def rule_global(ctx):
         r.bad(Finding('R-global', _f(gid), 'get_ID', 'get_ID no longer returns the current functionCount', gid.file, gid.lineno))
     # append: exactly one increment by one and one list append
     ap = m.func(TRACER, 'CGraph.append')
-    inc = [st for st in walk_no_nested(ap.node) if isinstance(st, ast.AugAssign) and norm(st) == 'self.functionCount += 1']
-    la = [c for c in walk_no_nested(ap.node) if isinstance(c, ast.Call) and norm(c.func) == 'self.functionList.append']
-    if len(inc) == 1 and len(la) == 1 and len(ap.node.body) == 2 + (1 if ast.get_docstring(ap.node) else 0):
+    inc = [st for st in ap.node.body if (isinstance(st, ast.AugAssign) and norm(st) == 'self.functionCount += 1')
+           or (isinstance(st, ast.Assign) and norm(st) in ('self.functionCount = self.functionCount + 1', 'self.functionCount = 1 + self.functionCount'))]
+    all_inc = [st for st in walk_no_nested(ap.node) if isinstance(st, (ast.Assign, ast.AugAssign))
+               and any(norm(t_) == 'self.functionCount' for t_ in (st.targets if isinstance(st, ast.Assign) else [st.target]))]
+    la = [st.value for st in ap.node.body if isinstance(st, ast.Expr) and isinstance(st.value, ast.Call) and norm(st.value.func) == 'self.functionList.append']
+    all_la = [c for c in walk_no_nested(ap.node) if isinstance(c, ast.Call) and isinstance(c.func, ast.Attribute)
+              and c.func.attr in ('append', 'insert', 'extend') and norm(c.func.value) == 'self.functionList']
+    if len(inc) == 1 and len(la) == 1 and len(all_inc) == 1 and len(all_la) == 1:
         r.ok(construct='append', sample='CGraph.append: one `functionCount += 1`, one `functionList.append(func)`')
     else:
         r.bad(Finding('R-global', _f(ap), 'append', 'CGraph.append must increment functionCount by one and append once '
@@ -1019,7 +1075,7 @@ def rule_global(ctx):
     creates = [c for c in walk_no_nested(fpf.node) if isinstance(c, ast.Call) and isinstance(c.func, ast.Attribute) and c.func.attr == 'create']
     for c in creates:
         g = [(norm(t), b) for t, b in _guards(fpf, c)]
-        if ('Fout is None', True) in g or ('Fout is not None', False) in g:
+        if _known_none(fpf, c, 'Fout') == 'none':
             r.ok(construct='create-under-Fout-None', nontrivial=True, sample='Function.pushforward: `%s` under %s' % (norm(c), g))
         else:
             r.bad(Finding('R-global', _f(fpf), 'create-unguarded', 'Function.pushforward creates a node outside `Fout is None`: '
